@@ -1,3 +1,4 @@
+from planlib import desc_fuzz
 KERNS = ["q120_vec_mat1col_product_baa", "q120_vec_mat1col_product_bbb", "q120_vec_mat1col_product_bbc",
          "q120x2_vec_mat1col_product_bbc", "q120x2_vec_mat2cols_product_bbc"]
 ELLC = ["ell:0", "ell:1", "ell:2", "ell:9999", "ell:10000", "ell:1000..9998", "ell:3..999", "ell:8000..10000"]
@@ -54,6 +55,7 @@ PLAN = dict(
                  "schedule and uses the low 32 bits of the library's own twiddle table; the hook only observes",
                  "default 30-bit prime set only"],
     quick=_jobs("quick"), thorough=_jobs("thorough"),
+    fuzz=desc_fuzz("C04", fix=dict(k=(0, 10)), skip_subs=['ntt_search']),
     required_classes=dict(all=["kern:" + k for k in KERNS] + ["impl:ref", "impl:avx2"] + ELLC + ["ell:3..9998"]
                           + ["operands:" + o for o in OPFAM] + ["h:%d" % h for h in range(1, 64)]
                           + ["split:low,low", "split:high,high", "split:low,high", "split:high,low"]
